@@ -331,6 +331,34 @@ func runC05(env *Env, tier string) {
 				faultsWithTraffic++
 			}
 			old := s.eng
+			// a send in flight across the stop: the link is down, an application goroutine is inside SendToTarget
+			// (its ToApp callback takes 1.5 s) when Stop is called. Whatever Stop does about it, a send that RETURNS
+			// nil was accepted and must be delivered - also when the engine recreated on the store has numbered
+			// messages of its own by then.
+			var inFlightErr chan error
+			inFlightID := ""
+			if ch.Chance("sendacrossstop", 1, 3) {
+				for _, l := range w.Links {
+					if !l.IsCut {
+						cut(l, 0, 0, nil)
+					}
+				}
+				env.Settle()
+				nsent++
+				inFlightID = fmt.Sprintf("%s%d", s.name, nsent)
+				slowID := inFlightID
+				old.App.RefuseToApp = func(c AppCall) bool {
+					if c.ID == slowID && !c.PossDup {
+						time.Sleep(1500*time.Millisecond + 173*time.Microsecond)
+					}
+					return false
+				}
+				inFlightErr = make(chan error, 1)
+				eng, id := old, inFlightID
+				go func() { inFlightErr <- eng.Send("D", AppBody(id)) }()
+				env.Settle()
+				env.Stat("fault_send_in_flight_across_stop")
+			}
 			old.StopAsync()
 			env.Settle()
 			// what is in flight keeps arriving while the engine logs out
@@ -349,6 +377,29 @@ func runC05(env *Env, tier string) {
 			env.Settle()
 			s.restarts++
 			start(s)
+			if inFlightErr != nil {
+				// nothing else is submitted on this side until the send has returned (submission order stays unambiguous)
+				var err error
+				done := false
+				for k := 0; k < 20 && !done; k++ {
+					select {
+					case err = <-inFlightErr:
+						done = true
+					default:
+						adv(200 * time.Millisecond)
+					}
+				}
+				if !done {
+					env.EngineStuck("a SendToTarget that was in flight when the engine was stopped has not returned 4 simulated seconds later")
+				}
+				if err == nil {
+					s.sent = append(s.sent, inFlightID)
+					env.Stat("probe_send_in_flight_across_stop_accepted")
+				} else {
+					env.Note("send %s in flight across the stop refused: %v", inFlightID, err)
+					env.Stat("probe_send_in_flight_across_stop_refused")
+				}
+			}
 			env.Note("engine %s stopped in an orderly way and was recreated on its store", s.name)
 			env.Stat("fault_orderly_stop_and_restart")
 			env.Advance(1100 * time.Millisecond)
